@@ -210,6 +210,10 @@ def run(sc, detail_rhs=False, keep_system=False):
                 fp.fired_site = None
                 if isinstance(err, traced.BudgetExceeded):
                     break
+            elif name == "query":
+                lg.emit("Api", op="query", k=k)
+                _do_query(system)
+                lg.emit("ApiRet", op="query", k=k, err=None, full=_full_state(system, y0_copy, y0))
             elif name == "reset":
                 lg.emit("Api", op="reset", k=k)
                 system.reset()
@@ -257,6 +261,16 @@ def _event_truth(op, t_start, t_goal, dt):
             out.append({"ev": i, "c": np.asarray(e["c"], dtype=dt), "term": bool(e.get("term")), "dir": d,
                         "s": float(e.get("s", 1.0)), "dirOk": bool(d == 0 or ((d > 0) == ((float(e.get("s", 1.0)) > 0) == fwd)))})
     return out
+
+
+def _do_query(system):
+    """A user looks the solution up between two calls (scalar and array form); results are discarded."""
+    if system.sol is not None and len(system.t) > 1:
+        tt = np.array(system.t, copy=True)
+        mids = tt[:-1] + (tt[1:] - tt[:-1]) * 0.5
+        system.sol(mids)
+        system.sol(mids[0])
+        system[mids[-1]]
 
 
 def _err_info(e):
@@ -578,6 +592,8 @@ def run_plain(sc):
                     fault_at[0] = None
             elif name == "reset":
                 system.reset()
+            elif name == "query":
+                _do_query(system)
             elif name == "set":
                 w, v = op["what"], op["v"]
                 if w == "dt":
